@@ -147,3 +147,186 @@ add('C04', 'twin', 'renderer-inline-temp', [(R, '''            last_text_sdoc = 
             sdoc_line[last_text_sdoc_idx] = last_text_sdoc.rstrip()''', '''            sdoc_line[last_text_sdoc_idx] = sdoc_line[last_text_sdoc_idx].rstrip()''')])
 add('C04', 'twin', 'dead-code-removed-fast', [(L, '''            return False
             triplestack.append((indent, BREAK_MODE, doc.doc))''', '''            return False''')])
+
+# ----------------------------------------------------------------------------- C05 / C06
+LA = ('C05', 'C06')
+add(LA, 'breaker', 'guard-strict', [(L, 'while chars_left >= 0:', 'while chars_left > 0:', 1)], 'C0')
+add(LA, 'breaker', 'guard-loose-smart', [(L, '''    chars_left = max_width
+
+    while chars_left >= 0:
+        if not triplestack:
+            return True
+
+        indent, mode, doc = triplestack.pop()
+
+        if doc is NIL:''', '''    chars_left = max_width
+
+    while chars_left >= -1:
+        if not triplestack:
+            return True
+
+        indent, mode, doc = triplestack.pop()
+
+        if doc is NIL:''')], 'C0')
+add(LA, 'breaker', 'avail-min-to-max', [(L, 'available_width = min(columns_left_in_line, columns_left_in_ribbon)', 'available_width = max(columns_left_in_line, columns_left_in_ribbon)', 1)], 'C0')
+add(LA, 'breaker', 'avail-width-minus-indent', [(L, 'columns_left_in_line = width - outcol', 'columns_left_in_line = width - indent', 1)], 'C0')
+add(LA, 'breaker', 'ribbon-from-col0', [(L, 'columns_left_in_ribbon = indent + ribbon_width - outcol', 'columns_left_in_ribbon = ribbon_width - outcol', 1)], 'C0')
+add(LA, 'breaker', 'ribbon-frac-unclamped', [(P, 'ribbon_frac = min(1.0, ribbon_width / width)', 'ribbon_frac = ribbon_width / width')], 'C0')
+add(LA, 'breaker', 'ribbon-frac-default', [(P, 'return layout_smart(doc, width=width, ribbon_frac=ribbon_frac)', 'return layout_smart(doc, width=width)')], 'C0')
+add(LA, 'breaker', 'predicate-on-live-stack', [(L, 'new_triplestack = copy(triplestack)', 'new_triplestack = triplestack')], 'C0')
+add(LA, 'breaker', 'predicate-without-rest', [(L, 'new_triplestack = copy(triplestack)', 'new_triplestack = []')], 'C0')
+add(LA, 'breaker', 'text-charged-plus-one', [(L, 'chars_left -= len(doc)', 'chars_left -= len(doc) + 1', 1)], 'C0')
+add(LA, 'breaker', 'smart-reset-full-width', [(L, 'chars_left = page_width - indent', 'chars_left = page_width')], 'C0')
+add(LA, 'breaker', 'smart-continue-ge', [(L, 'if indent > min_nesting_level:', 'if indent >= min_nesting_level:')], 'C0')
+add(LA, 'breaker', 'min-nesting-max', [(L, 'min_nesting_level = min(outcol, indent)', 'min_nesting_level = max(outcol, indent)', 1)], 'C0')
+add(LA, 'breaker', 'ribbon-round-dropped', [(L, 'ribbon_width = max(0, min(width, round(ribbon_frac * width)))', 'ribbon_width = max(0, min(width, round(ribbon_frac * width) + 1))')], 'C0')
+add(LA, 'breaker', 'fallout-returns-true', [(L, '''            raise ValueError((indent, mode, doc))
+
+    return False
+
+
+def smart''', '''            raise ValueError((indent, mode, doc))
+
+    return True
+
+
+def smart''')], 'C0')
+add(LA, 'breaker', 'will-break-depends-on-indent', [(P, 'will_break = force_break or minimum_output_len > MAX_PRACTICAL_RIBBON_WIDTH', 'will_break = force_break or minimum_output_len + ctx.indent > MAX_PRACTICAL_RIBBON_WIDTH')], 'C0')
+add(LA, 'twin', 'guard-gt-minus-one', [(L, 'while chars_left >= 0:', 'while chars_left > -1:', 0)])
+add(LA, 'twin', 'guard-not-lt', [(L, 'while chars_left >= 0:', 'while not chars_left < 0:', 0)])
+add(LA, 'twin', 'avail-inline-and-commute', [(L, '''            columns_left_in_line = width - outcol
+            columns_left_in_ribbon = indent + ribbon_width - outcol
+            available_width = min(columns_left_in_line, columns_left_in_ribbon)
+
+            if fitting_predicate(''', '''            available_width = min(ribbon_width + indent - outcol, width - outcol)
+
+            if fitting_predicate(''')])
+add(LA, 'twin', 'copy-via-list', [(L, 'new_triplestack = copy(triplestack)', 'new_triplestack = list(triplestack)')])
+add(LA, 'twin', 'ribbon-commuted', [(L, 'ribbon_width = max(0, min(page_width, round(ribbon_frac * page_width)))', 'ribbon_width = max(min(round(page_width * ribbon_frac), page_width), 0)', 0)])
+add(LA, 'twin', 'positional-predicate-args', [(L, '''            if fitting_predicate(
+                page_width=width,
+                ribbon_frac=ribbon_frac,
+                min_nesting_level=min_nesting_level,
+                max_width=available_width,
+                triplestack=new_triplestack
+            ):''', '''            if fitting_predicate(width, ribbon_frac, min_nesting_level, available_width, new_triplestack):''')])
+
+# ----------------------------------------------------------------------------- C18
+add('C18', 'breaker', 'pprint-drops-ribbon', [(I, '''            ribbon_width=ribbon_width,
+            max_seq_len=max_seq_len,
+            sort_dict_keys=sort_dict_keys,
+        )
+    )
+    stream = (
+        # This is not in _default_config in case
+        # sys.stdout changes.
+        sys.stdout
+        if stream is _UNSET_SENTINEL
+        else stream
+    )
+
+    default_render_to_stream(stream, sdocs)''', '''            ribbon_width=_UNSET_SENTINEL,
+            max_seq_len=max_seq_len,
+            sort_dict_keys=sort_dict_keys,
+        )
+    )
+    stream = (
+        # This is not in _default_config in case
+        # sys.stdout changes.
+        sys.stdout
+        if stream is _UNSET_SENTINEL
+        else stream
+    )
+
+    default_render_to_stream(stream, sdocs)''')], 'C18.a')
+add('C18', 'breaker', 'cpprint-width-as-ribbon', [(I, '''            depth=depth,
+            ribbon_width=ribbon_width,
+            max_seq_len=max_seq_len,
+            sort_dict_keys=sort_dict_keys,
+        )
+    )
+    stream = (
+        # This is not in _default_config in case
+        # sys.stdout changes.
+        sys.stdout
+        if stream is _UNSET_SENTINEL
+        else stream
+    )
+    colored_render_to_stream''', '''            depth=depth,
+            ribbon_width=width,
+            max_seq_len=max_seq_len,
+            sort_dict_keys=sort_dict_keys,
+        )
+    )
+    stream = (
+        # This is not in _default_config in case
+        # sys.stdout changes.
+        sys.stdout
+        if stream is _UNSET_SENTINEL
+        else stream
+    )
+    colored_render_to_stream''')], 'C18.a')
+add('C18', 'breaker', 'merge-default-wins', [(I, 'return {key: kwargs[key] if kwargs[key] is not _UNSET_SENTINEL else default', 'return {key: kwargs[key] if kwargs[key] is _UNSET_SENTINEL else default')], 'C18.b')
+add('C18', 'breaker', 'merge-captures-defaults', [(I, '''    kwargs = locals()
+    return {key: kwargs[key] if kwargs[key] is not _UNSET_SENTINEL else default
+            for key, default in _default_config.items()}''', '''    kwargs = locals()
+    return {key: kwargs[key] if kwargs[key] is not _UNSET_SENTINEL else default
+            for key, default in _INITIAL_DEFAULTS}'''), (I, '''def _merge_defaults(''', '''_INITIAL_DEFAULTS = tuple(_default_config.items())
+
+
+def _merge_defaults(''')], 'C18.b')
+add('C18', 'breaker', 'setdefault-cross-wired', [(I, "new_defaults['ribbon_width'] = ribbon_width", "new_defaults['width'] = ribbon_width")], 'C18.c')
+add('C18', 'breaker', 'setdefault-unguarded', [(I, '''    if depth is not _UNSET_SENTINEL:
+        new_defaults['depth'] = depth''', '''    new_defaults['depth'] = depth''')], 'C18.c')
+add('C18', 'breaker', 'setdefault-not-installed', [(I, '''    _default_config = new_defaults
+    return new_defaults''', '''    return new_defaults''')], 'C18.c')
+add('C18', 'breaker', 'pprint-end-before', [(I, '''    default_render_to_stream(stream, sdocs)
+    if end:
+        stream.write(end)''', '''    if end:
+        stream.write(end)
+    default_render_to_stream(stream, sdocs)''')], 'C18.a')
+add('C18', 'breaker', 'pprint-stdout-captured', [(I, '''    stream = (
+        # This is not in _default_config in case
+        # sys.stdout changes.
+        sys.stdout
+        if stream is _UNSET_SENTINEL
+        else stream
+    )
+
+    default_render_to_stream(stream, sdocs)''', '''    stream = (
+        _STDOUT
+        if stream is _UNSET_SENTINEL
+        else stream
+    )
+
+    default_render_to_stream(stream, sdocs)'''), (I, '_UNSET_SENTINEL = UnsetSentinel()\n', '_UNSET_SENTINEL = UnsetSentinel()\n_STDOUT = sys.stdout\n')], 'C18.a')
+add('C18', 'breaker', 'shim-drops-object', [(I, 'return pformat(object, *self._args, **self._kwargs)', 'return pformat(*self._args, **self._kwargs)')], 'C18.d')
+add('C18', 'breaker', 'pretty-repr-uses-repr', [(I, '    return pformat(instance)', '    return repr(instance)')], 'C18.e')
+add('C18', 'breaker', 'pformat-depth-default-none', [(I, '''    object,
+    indent=_UNSET_SENTINEL,
+    width=_UNSET_SENTINEL,
+    depth=_UNSET_SENTINEL,
+    *,
+    ribbon_width=_UNSET_SENTINEL,
+    max_seq_len=_UNSET_SENTINEL,
+    compact=_UNSET_SENTINEL,''', '''    object,
+    indent=_UNSET_SENTINEL,
+    width=_UNSET_SENTINEL,
+    depth=None,
+    *,
+    ribbon_width=_UNSET_SENTINEL,
+    max_seq_len=_UNSET_SENTINEL,
+    compact=_UNSET_SENTINEL,''')], 'C18.a')
+add('C18', 'twin', 'merge-reversed-polarity', [(I, 'return {key: kwargs[key] if kwargs[key] is not _UNSET_SENTINEL else default', 'return {key: default if kwargs[key] is _UNSET_SENTINEL else kwargs[key]')])
+add('C18', 'twin', 'stream-choice-reversed', [(I, '''        sys.stdout
+        if stream is _UNSET_SENTINEL
+        else stream
+    )
+
+    default_render_to_stream''', '''        stream
+        if stream is not _UNSET_SENTINEL
+        else sys.stdout
+    )
+
+    default_render_to_stream''')])
+add('C18', 'twin', 'setdefault-dict-copy', [(I, 'new_defaults = {**_default_config}', 'new_defaults = dict(_default_config)')])
